@@ -200,6 +200,11 @@ class DataFrameSchemaBackend(PandasSchemaBackend):
         check_passed = []
         # schema-component-level checks
         for schema_component in schema_components:
+            # apply the dataframe-level overrides below to a shallow copy of
+            # the schema component: other users of the same schema object
+            # (e.g. other threads) must never observe them
+            schema_component = copy.copy(schema_component)
+
             # make sure the schema component mutations are reverted after
             # validation
             _orig_dtype = schema_component.dtype
